@@ -72,6 +72,61 @@ def write_programs(rnd, t, k):
     return out
 
 
+FRAGS = ["", "", "  foo", "bar", " x", "    deep", "# not a comment", "- a", "k: v", "  ", "tail  ", "é", ">", "|", "'q'", "\"dq\""]
+FLOW_KEYS = ["a,b", "x]y", "l{r}", "[p", "q}", "a, b", "k:v", "plain", "x y", "#h", "a#b", "- d", "?q", "&a", "*s", "!t", "@at", "`bt"]
+
+
+def block_scalar(rnd, indent, style):
+    """(text lines of a block scalar with explicit indentation indicator, chomping chosen from the value)"""
+    n = rnd.randint(1, 6)
+    lines = [rnd.choice(FRAGS) for _ in range(n)]
+    if all(l.strip() == "" for l in lines):
+        lines.append("x")
+    trailing = rnd.choice([0, 1, 1, 2, 3])
+    chomp = {0: "-", 1: ""}.get(trailing, "+")
+    body = [(" " * indent + l) if l != "" else "" for l in lines] + [""] * max(0, trailing - 1)
+    return f"{style}{indent}{chomp}", body
+
+
+def shaped_documents(rnd, n):
+    out = []
+    for i in range(n):
+        if i % 3 != 2:
+            ind = rnd.randint(1, 4)
+            hdr, body = block_scalar(rnd, ind, rnd.choice("|>"))
+            shape = rnd.randrange(4)
+            if shape == 0:
+                text = f"a: {hdr}\n" + "\n".join(body) + "\nc: after\n"
+                progs = [".", ".a", ".c = \"z\"", "del(.c)"]
+            elif shape == 1:
+                pad = " " * 2
+                text = "top:\n" + f"{pad}a: {hdr}\n" + "\n".join((pad + b) if b else "" for b in body) + f"\n{pad}c: after\nz: 1\n"
+                progs = [".", ".top", ".top.a", ".z = 2"]
+            elif shape == 2:
+                text = f"- {hdr}\n" + "\n".join(((" " * 0) + b) if b else "" for b in body) + "\n- after\n"
+                progs = [".", ".[0]", ".[1] = \"w\""]
+            else:
+                text = f"- k: {hdr}\n" + "\n".join(("  " + b) if b else "" for b in body) + "\n  j: 1\n- 2\n"
+                progs = [".", ".[0]", ".[0].k", ".[0].j = 5"]
+            out.append((text.encode("utf-8"), progs))
+        else:
+            keys = rnd.sample(FLOW_KEYS, rnd.randint(1, 4))
+            inner = ", ".join(f"{json.dumps(k, ensure_ascii=False)}: {j}" for j, k in enumerate(keys))
+            k2 = rnd.choice(FLOW_KEYS)
+            shape = rnd.randrange(3)
+            if shape == 0:
+                text = "{" + inner + ", k: 2}\n"
+                progs = [".k = 3", f".[{jlit(k2)}] = 1", "del(.k)", "."]
+            elif shape == 1:
+                text = "top:\n  m: {" + inner + "}\n  n: 1\n"
+                progs = [f".top.m[{jlit(k2)}] = 1", ".top.n = 2", "del(.top.n)", ".top.m"]
+            else:
+                text = "- {" + inner + "}\n- [" + ", ".join(json.dumps(k, ensure_ascii=False) for k in keys) + "]\n"
+                progs = [f".[0][{jlit(k2)}] = [1]", ".[1] += [" + jlit(k2) + "]", "."]
+            out.append((text.encode("utf-8"), progs))
+    return out
+
+
 def route_class(prog):
     return "identity" if prog == "." else ("nav" if not any(o in prog for o in ("=", "del(", " * ")) else "write")
 
@@ -223,6 +278,13 @@ def run(leg, seed, tier, replay=None):
         first = d["docs"][0] if d["docs"] else ["z"]
         for p in write_programs(rnd, first, 4 if tier == "quick" else 7):
             jobs.append((doc, p, rnd.randrange(0, 8), d.get("features", [])))
+    # Hand-shaped families that the structured generator reaches only rarely:
+    #  (a) block scalars with an explicit indentation indicator whose content opens with blank lines and/or
+    #      whose first non-blank line has leading spaces of its own, followed by a shallower sibling;
+    #  (b) flow-style mappings in block context whose keys contain flow indicators, under write programs.
+    for doc, progs in shaped_documents(rnd, 60 if tier == "quick" else 600):
+        for p in progs:
+            jobs.append((doc, p, rnd.randrange(0, 8), ["shaped"]))
     # -I 8 is rejected by the argument parser before reading input: out of domain, counted once
     r8 = climon.run_cli(binary, ["yq", "-I", "8", "."], stdin=b"a: 1\n")
     rep.count("indent8.rejected_by_cli" if r8.rc not in (0, None) else "indent8.accepted")
